@@ -2,14 +2,14 @@
    computation of the evaluator, whatever the program, the fuel and the outcome (success, diagnostic, signal,
    fuel exhaustion).  I is a section variable: reflexive, transitive, and closed under each primitive update
    the model performs.  Instances: Lemmas_Out.v (standard output is append-only). *)
-From PE2 Require Import Eval.
+From PE2 Require Import Eval Lemmas_Ped.
 Local Open Scope Z_scope.
 
 Section Frame.
 Variable I : st -> st -> Prop.
 Hypothesis I_refl : forall s, I s s.
 Hypothesis I_trans : forall a b c, I a b -> I b c -> I a c.
-Hypothesis I_next : forall v s, I s (set_next v s).
+Hypothesis I_next : forall s, I s (set_next (N.succ (s_next s)) s).        (* the only use: fresh *)
 Hypothesis I_cells : forall v s, I s (set_cells v s).
 Hypothesis I_arrs : forall v s, I s (set_arrs v s).
 Hypothesis I_ctxs : forall v s, I s (set_ctxs v s).
@@ -19,7 +19,7 @@ Hypothesis I_emit : forall x s, I s (set_out (x :: s_out s) s).
 Hypothesis I_in : forall v s, I s (set_in v s).
 Hypothesis I_fs : forall v s, I s (set_fs v s).
 Hypothesis I_files : forall v s, I s (set_files v s).
-Hypothesis I_steps : forall v s, I s (set_steps v s).
+Hypothesis I_steps : forall s, I s (set_steps (s_steps s + 1) s).          (* the only use: tick *)
 Hypothesis I_cellcount : forall v s, I s (set_cellcount v s).
 Hypothesis I_depth : forall v s, I s (set_depth v s).
 Hypothesis I_rand : forall v s, I s (set_rand v s).
@@ -117,6 +117,18 @@ Proof.
   specialize (H s). destruct ((cx <- get_ctx c ;; _) s) as [[d|f] s1]; exact H.
 Qed.
 
+Lemma Pr_root_of id : Pr (root_of id).
+Proof. unfold root_of. apply Pr_bind; [apply Pr_get_ctx|]. intros c. apply Pr_root_of_aux. Qed.
+Lemma Pr_lookup_def_aux {D} (table : ctx -> list (str * D)) fuel : forall c name global, Pr (lookup_def_aux table fuel c name global).
+Proof.
+  induction fuel as [|f IH]; intros c name global; cbn [lookup_def_aux]; [apply Pr_failm|].
+  apply Pr_bind; [apply Pr_get_ctx|]. intros cx. destruct (assoc_str name (table cx)); [apply Pr_ret|].
+  destruct (x_isrec cx), (x_parent cx); try apply IH; try apply Pr_ret;
+  (destruct global; [|apply Pr_ret]; apply Pr_bind; [apply Pr_root_of|]; intros r; apply Pr_bind; [apply Pr_get_ctx|]; intros rc; apply Pr_ret).
+Qed.
+Lemma Pr_lookup_def {D} (table : ctx -> list (str * D)) c name global : Pr (lookup_def table c name global).
+Proof. unfold lookup_def. apply Pr_bind; [apply Pr_get_ctx|]. intros cx. apply Pr_lookup_def_aux. Qed.
+
 Lemma Pr_call_body d cc ab m : Pr m -> Pr (call_body d cc ab m).
 Proof.
   intros Hm s. unfold call_body. specialize (Hm s). destruct (m s) as [[a|f] s1]; cbn [snd] in *.
@@ -126,4 +138,493 @@ Proof.
     + eapply I_trans; [exact Hm|]. eapply I_trans; [apply (I_depth d)|]. apply (@Pr_runtime_error_cls unit).
     + destruct ab; (eapply I_trans; [exact Hm|apply I_depth]).
 Qed.
+
+Lemma Pr_run_body br : Pr br -> Pr (run_body br).
+Proof.
+  intros H. unfold run_body. apply Pr_catch; [apply Pr_bind; [exact H|intros _; apply Pr_ret]|].
+  intros f m' E. destruct f; inversion E; subst; apply Pr_ret.
+Qed.
+
+Ltac solve_I :=
+  cbv beta;
+  first [ apply I_refl | apply I_next | apply I_cells | apply I_arrs | apply I_ctxs | apply I_procs | apply I_funcs | apply I_emit
+        | apply I_in | apply I_fs | apply I_files | apply I_steps | apply I_cellcount | apply I_depth | apply I_rand
+        | (eapply I_trans; [ | first [ apply I_next | apply I_cells | apply I_arrs | apply I_ctxs | apply I_procs | apply I_funcs | apply I_emit
+                                     | apply I_in | apply I_fs | apply I_files | apply I_steps | apply I_cellcount | apply I_depth | apply I_rand ] ]; solve_I) ].
+
+Ltac head_of t := match t with ?f _ => head_of f | _ => t end.
+
+(* decomposition of a computation into the combinators above; [known] closes goals about recursive functions *)
+Ltac pr_with known :=
+  repeat first
+    [ apply Pr_ret | apply Pr_failm | apply Pr_gets | apply Pr_fresh | apply Pr_get_cell | apply Pr_get_arr | apply Pr_get_ctx
+    | apply Pr_put_cell | apply Pr_put_arr | apply Pr_put_ctx | apply Pr_emit | apply Pr_runtime_error_cls
+    | apply Pr_lookup_def | apply Pr_root_of_aux | apply Pr_nonrec_ancestor_aux | apply Pr_on_chain_aux | apply Pr_trace_aux
+    | known
+    | match goal with
+      | |- Pr (bind _ _) => apply Pr_bind; [ | intros ? ]
+      | |- Pr (modify _) => apply Pr_modify; intros ?; solve_I
+      | |- Pr (catch_cls _ _ _) => apply Pr_catch_cls; [ | intros ? ]
+      | |- Pr (run_body _) => apply Pr_run_body
+      | |- Pr (call_body _ _ _ _) => apply Pr_call_body
+      | |- Pr (mapM _ _) => apply Pr_mapM; intros ?
+      | |- Pr (iterM _ _) => apply Pr_iterM; intros ?
+      | |- Pr (zipM _ _ _) => apply Pr_zipM; intros ? ?
+      | |- Pr (repeatM _ _) => apply Pr_repeatM
+      | |- Pr (if ?c then _ else _) => destruct c
+      | |- Pr (match ?x with _ => _ end) => destruct x
+      | |- Pr (let _ := _ in _) => cbv zeta
+      | |- Pr (fst (match ?x with _ => _ end)) => destruct x; cbn [fst snd]
+      | |- Pr (snd (match ?x with _ => _ end)) => destruct x; cbn [fst snd]
+      | |- Pr ?m => let h := head_of m in unfold h
+      end ].
+Ltac pr := pr_with fail.
+
+(* ---- Heap.v ---- *)
+Lemma Pr_copy fuel : (forall p, Pr (copy_val fuel p)) /\ (forall c, Pr (copy_ctx fuel c)).
+Proof.
+  induction fuel as [|f [IHv IHc]].
+  - split; [intros p; destruct p; cbn [copy_val]; pr|intros c; cbn [copy_ctx]; pr].
+  - assert (Hc : forall c, Pr (copy_ctx (S f) c)).
+    { intros c. cbn [copy_ctx]. pr_with ltac:(first [apply IHv | apply IHc]). }
+    split; [|exact Hc]. intros p. destruct p; cbn [copy_val]; pr_with ltac:(first [apply IHv | apply IHc]).
+Qed.
+Lemma Pr_copy_val fuel p : Pr (copy_val fuel p).
+Proof. apply Pr_copy. Qed.
+Lemma Pr_copy_ctx fuel c : Pr (copy_ctx fuel c).
+Proof. apply Pr_copy. Qed.
+
+Lemma Pr_set_cell_val id v : Pr (set_cell_val id v).
+Proof. unfold set_cell_val. pr. Qed.
+
+Lemma Pr_copy_go (sc : N -> payload -> M unit) : (forall d p, Pr (sc d p)) -> forall l1 l2,
+  Pr ((fix go (l1 l2 : list N) : M unit :=
+         match l1, l2 with
+         | e1 :: r1, e2 :: r2 => s <- get_cell e2 ;; sc e1 (c_val s) ;;; go r1 r2
+         | _, _ => ret Datatypes.tt
+         end) l1 l2).
+Proof.
+  intros H. induction l1 as [|e1 r1 IH]; intros l2; [destruct l2; apply Pr_ret|].
+  destruct l2 as [|e2 r2]; [apply Pr_ret|].
+  apply Pr_bind; [apply Pr_get_cell|]. intros s. apply Pr_bind; [apply H|]. intros _. apply IH.
+Qed.
+
+Lemma Pr_set_copy_both fuel : (forall d p, Pr (set_copy fuel d p)) /\ (forall dc sc, Pr (copy_var_data fuel dc sc)).
+Proof.
+  induction fuel as [|f [IHs IHc]].
+  - split; intros; [cbn [set_copy]|cbn [copy_var_data]]; apply Pr_failm.
+  - split.
+    + intros d p. cbn [set_copy]. pr_with ltac:(first [apply IHs | apply IHc | apply Pr_copy_val | apply Pr_set_cell_val]).
+    + intros dc sc. cbn [copy_var_data].
+      pr_with ltac:(first [apply IHs | apply IHc | apply Pr_copy_val | apply Pr_set_cell_val | apply (Pr_copy_go (set_copy f) IHs)]).
+Qed.
+Lemma Pr_set_copy fuel d p : Pr (set_copy fuel d p).
+Proof. apply Pr_set_copy_both. Qed.
+Lemma Pr_copy_var_data fuel dc sc : Pr (copy_var_data fuel dc sc).
+Proof. apply Pr_set_copy_both. Qed.
+
+Lemma Pr_copy_array_data fuel d s0 : Pr (copy_array_data fuel d s0).
+Proof.
+  unfold copy_array_data. destruct (N.eqb d s0); [apply Pr_ret|].
+  apply Pr_bind; [apply Pr_get_arr|]. intros a1. apply Pr_bind; [apply Pr_get_arr|]. intros a2.
+  apply (Pr_copy_go (set_copy fuel)). intros. apply Pr_set_copy.
+Qed.
+
+Ltac heap_known := first [ apply Pr_copy_val | apply Pr_copy_ctx | apply Pr_set_cell_val | apply Pr_set_copy | apply Pr_copy_var_data | apply Pr_copy_array_data ].
+
+Lemma Pr_assign_val fuel dst v : Pr (assign_val fuel dst v).
+Proof. unfold assign_val. pr_with heap_known. Qed.
+
+Lemma Pr_abs_val fuel : forall c p, Pr (abs_val fuel c p).
+Proof.
+  induction fuel as [|f IH]; intros c p; destruct p; cbn [abs_val]; pr_with ltac:(first [apply IH | heap_known]).
+Qed.
+
+Lemma Pr_store_tree fuel : forall id t, Pr (store_tree fuel id t).
+Proof.
+  induction fuel as [|f IH]; intros id t; cbn [store_tree]; pr_with ltac:(first [apply IH | heap_known]).
+Qed.
+
+(* ---- Control.v ---- *)
+Lemma Pr_eval_bounds ev c bs : (forall n, Pr (ev n)) -> forall total, Pr (eval_bounds ev c bs total).
+Proof.
+  intros H. remember (List.length bs) as n eqn:Hn. revert bs Hn.
+  induction n as [n IH] using lt_wf_ind. intros bs Hn total.
+  destruct bs as [|lo [|hi rest]]; cbn [eval_bounds]; try apply Pr_ret.
+  pr_with ltac:(first [apply H | (eapply IH; [|reflexivity]; subst n; cbn [List.length]; lia)]).
+Qed.
+Lemma Pr_eval_indices ev c es : (forall n, Pr (ev n)) -> forall ds, Pr (eval_indices ev c es ds).
+Proof.
+  intros H. induction es as [|e er IH]; intros ds; cbn [eval_indices]; [apply Pr_ret|].
+  destruct ds as [|d dr]; [apply Pr_ret|]. pr_with ltac:(first [apply H | apply IH]).
+Qed.
+
+Section Ctl.
+Variable lim : limits.
+Lemma Pr_tick t c : Pr (tick lim t c).
+Proof.
+  intros s. unfold tick, bind, gets. cbn [fst snd].
+  destruct ((0 <? max_steps lim) && (max_steps lim <? s_steps s + 1)); [apply (@Pr_runtime_error_cls unit)|].
+  unfold modify. cbn [snd]. apply I_steps.
+Qed.
+Lemma Pr_cond_bool t c ce : Pr ce -> Pr (cond_bool t c ce).
+Proof. intros H. unfold cond_bool. pr_with ltac:(exact H). Qed.
+Lemma Pr_if_chain t c comps : Forall (fun p => (forall ce, fst p = Some ce -> Pr ce) /\ Pr (snd p)) comps -> Pr (if_chain t c comps).
+Proof.
+  induction comps as [|[o b] rest IH]; intros HF; cbn [if_chain]; [apply Pr_ret|].
+  inversion HF as [|? ? [Hc Hb] Hr]; subst. cbn [fst snd] in *. destruct o as [ce|].
+  - apply Pr_bind; [apply Pr_cond_bool; apply Hc; reflexivity|]. intros v. destruct v; [|apply IH; exact Hr].
+    apply Pr_bind; [exact Hb|]. intros _. apply Pr_ret.
+  - apply Pr_bind; [exact Hb|]. intros _. apply Pr_ret.
+Qed.
+Lemma Pr_case_chain clauses : Forall (fun p => Pr (fst p) /\ Pr (snd p)) clauses -> Pr (case_chain clauses).
+Proof.
+  induction clauses as [|[m b] rest IH]; intros HF; cbn [case_chain]; [apply Pr_ret|].
+  inversion HF as [|? ? [Hm Hb] Hr]; subst. cbn [fst snd] in *.
+  apply Pr_bind; [exact Hm|]. intros v. destruct v; [|apply IH; exact Hr]. apply Pr_bind; [exact Hb|]. intros _. apply Pr_ret.
+Qed.
+Lemma Pr_while k t c ce br : Pr ce -> Pr br -> Pr (while_loop lim k t c ce br).
+Proof.
+  intros Hc Hb. induction k as [|k IH]; cbn [while_loop]; [apply Pr_failm|].
+  pr_with ltac:(first [apply Pr_tick | apply Pr_cond_bool; exact Hc | exact Hb | exact IH]).
+Qed.
+Lemma Pr_repeat k t c ce br : Pr ce -> Pr br -> Pr (repeat_loop lim k t c ce br).
+Proof.
+  intros Hc Hb. induction k as [|k IH]; cbn [repeat_loop]; [apply Pr_failm|].
+  pr_with ltac:(first [apply Pr_tick | apply Pr_cond_bool; exact Hc | exact Hb | exact IH]).
+Qed.
+Lemma Pr_for k t c it stepv stop br : Pr br -> Pr (for_loop lim k t c it stepv stop br).
+Proof.
+  intros Hb. induction k as [|k IH]; cbn [for_loop]; [apply Pr_failm|].
+  pr_with ltac:(first [apply Pr_tick | apply Pr_set_cell_val | exact Hb | exact IH]).
+Qed.
+Lemma Pr_if_chain_map ev rb t c comps : (forall n, Pr (ev n)) -> (forall b, Pr (rb b)) -> Pr (if_chain t c (map (if_comp ev rb) comps)).
+Proof.
+  intros He Hb. apply Pr_if_chain. apply Forall_forall. intros p Hin. apply in_map_iff in Hin. destruct Hin as [q [Hq _]]. subst p.
+  unfold if_comp. cbn [fst snd]. split; [|apply Hb]. intros ce E. destruct (fst q); inversion E; subst. apply He.
+Qed.
+Lemma Pr_case_chain_map {A} (f : A -> M bool * M unit) l : (forall x, Pr (fst (f x)) /\ Pr (snd (f x))) -> Pr (case_chain (map f l)).
+Proof. intros H. apply Pr_case_chain. apply Forall_forall. intros p Hin. apply in_map_iff in Hin. destruct Hin as [q [Hq _]]. subst p. apply H. Qed.
+End Ctl.
+
+Lemma Pr_builtin_args t c ks : forall vs, Pr (builtin_args t c ks vs).
+Proof.
+  induction ks as [|k kr IH]; intros vs; cbn [builtin_args]; [apply Pr_ret|]. destruct vs as [|v vr]; [apply Pr_ret|].
+  pr_with ltac:(first [apply IH | heap_known]).
+Qed.
+
+(* ---- Eval.v: one level of the evaluator preserves I if the level beneath does ---- *)
+Section Bodies.
+Variables (ped repl : bool) (lim : limits) (self : evs).
+Hypothesis He : forall n c, Pr (ev_eval self n c).
+Hypothesis Hr : forall r c, Pr (ev_resolve self r c).
+Hypothesis Hce : forall v e c, Pr (ev_case_equals self v e c).
+Hypothesis Hcr : forall v lo hi c, Pr (ev_case_range self v lo hi c).
+Hypothesis Hb : forall bl c, Pr (ev_run_block self bl c).
+Hypothesis Hv : forall name ty cst owner, Pr (ev_new_var self name ty cst owner).
+Hypothesis Ha : forall name ty dims owner, Pr (ev_new_array self name ty dims owner).
+Hypothesis Hba : forall t params args vals c fc, Pr (ev_bind_args self t params args vals c fc).
+Hypothesis Hp : forall t name args c, Pr (ev_call_procedure self t name args c).
+Hypothesis Hf : forall t args c, Pr (ev_call_function self t args c).
+
+Ltac ev_known :=
+  first [ apply He | apply Hr | apply Hce | apply Hcr | apply Hb | apply Hv | apply Ha | apply Hba | apply Hp | apply Hf
+        | heap_known | apply Pr_assign_val | apply Pr_abs_val | apply Pr_store_tree | apply Pr_builtin_args | apply Pr_tick
+        | match goal with
+          | |- Pr (eval_bounds _ _ _ _) => apply Pr_eval_bounds; intros ?
+          | |- Pr (eval_indices _ _ _ _) => apply Pr_eval_indices; intros ?
+          | |- Pr (if_chain _ _ (map (if_comp _ _) _)) => apply Pr_if_chain_map; intros ?
+          | |- Pr (case_chain (map _ _)) => apply Pr_case_chain_map; intros ?; split
+          | |- Pr (while_loop _ _ _ _ _ _) => apply Pr_while
+          | |- Pr (repeat_loop _ _ _ _ _ _) => apply Pr_repeat
+          | |- Pr (for_loop _ _ _ _ _ _ _ _) => apply Pr_for
+          end ].
+
+Lemma Pr_eval_body n c : Pr (eval_body ped lim self n c).
+Proof. destruct n; unfold eval_body; pr_with ev_known. Qed.
+Lemma Pr_resolve_body r c : Pr (resolve_body self r c).
+Proof. destruct r; unfold resolve_body; pr_with ev_known. Qed.
+Lemma Pr_case_equals_body v e c : Pr (case_equals_body self v e c).
+Proof. unfold case_equals_body; pr_with ev_known. Qed.
+Lemma Pr_case_range_body v lo hi c : Pr (case_range_body self v lo hi c).
+Proof. unfold case_range_body; pr_with ev_known. Qed.
+Lemma Pr_run_block_body bl c : Pr (run_block_body repl lim self bl c).
+Proof. unfold run_block_body; pr_with ev_known. Qed.
+Lemma Pr_new_var_body name ty cst owner : Pr (new_var_body self name ty cst owner).
+Proof. unfold new_var_body; pr_with ev_known. Qed.
+Lemma Pr_new_array_body name ty dims owner : Pr (new_array_body lim self name ty dims owner).
+Proof. unfold new_array_body; pr_with ev_known. Qed.
+Lemma Pr_bind_args_body t params args vals c fc : Pr (bind_args_body self t params args vals c fc).
+Proof. unfold bind_args_body; pr_with ev_known. Qed.
+Lemma Pr_call_procedure_body t name args c : Pr (call_procedure_body lim self t name args c).
+Proof. unfold call_procedure_body; pr_with ev_known. Qed.
+Lemma Pr_call_function_body t args c : Pr (call_function_body lim self t args c).
+Proof. unfold call_function_body; pr_with ev_known. Qed.
+End Bodies.
+
+Definition evs_Pr (e : evs) : Prop :=
+  (forall n c, Pr (ev_eval e n c)) /\ (forall r c, Pr (ev_resolve e r c)) /\
+  (forall v x c, Pr (ev_case_equals e v x c)) /\ (forall v lo hi c, Pr (ev_case_range e v lo hi c)) /\
+  (forall bl c, Pr (ev_run_block e bl c)) /\ (forall name ty cst owner, Pr (ev_new_var e name ty cst owner)) /\
+  (forall name ty dims owner, Pr (ev_new_array e name ty dims owner)) /\
+  (forall t params args vals c fc, Pr (ev_bind_args e t params args vals c fc)) /\
+  (forall t name args c, Pr (ev_call_procedure e t name args c)) /\ (forall t args c, Pr (ev_call_function e t args c)).
+
+Lemma evs_at_Pr ped repl lim fuel : evs_Pr (evs_at ped repl lim fuel).
+Proof.
+  induction fuel as [|f IH]; cbn [evs_at].
+  - unfold evs_Pr, evs_zero. cbn. repeat split; intros; apply Pr_failm.
+  - destruct IH as [H1 [H2 [H3 [H4 [H5 [H6 [H7 [H8 [H9 H10]]]]]]]]]. unfold evs_Pr, evs_step. cbn.
+    split; [intros; apply Pr_eval_body; assumption|].
+    split; [intros; apply Pr_resolve_body; assumption|].
+    split; [intros; apply Pr_case_equals_body; assumption|].
+    split; [intros; apply Pr_case_range_body; assumption|].
+    split; [intros; apply Pr_run_block_body; assumption|].
+    split; [intros; apply Pr_new_var_body; assumption|].
+    split; [intros; apply Pr_new_array_body; assumption|].
+    split; [intros; apply Pr_bind_args_body; assumption|].
+    split; [intros; apply Pr_call_procedure_body; assumption|].
+    intros; apply Pr_call_function_body; assumption.
+Qed.
+
+Theorem Pr_eval ped repl lim fuel n c : Pr (eval ped repl lim fuel n c).
+Proof. unfold eval. apply (evs_at_Pr ped repl lim fuel). Qed.
+Theorem Pr_run_block ped repl lim fuel bl c : Pr (run_block ped repl lim fuel bl c).
+Proof. unfold run_block. apply (evs_at_Pr ped repl lim fuel). Qed.
+
+(* ================= --pedantic, relationally, with the frame =================
+   RI: the two runs end in the same outcome and state, or the pedantic one stopped with a pedantic Error in a
+   state from which the other run's final state is I-reachable (for I = "output extends": what the pedantic
+   run printed is a prefix of what the other run prints). *)
+Section PedRel.
+Hypothesis I_depth_mono : forall d a b, I a b -> I (set_depth d a) (set_depth d b).
+
+Definition RI {A} (x y : outcome A * st) : Prop := x = y \/ (ped_fail x /\ I (snd x) (snd y)).
+Definition RMI {A} (m1 m2 : M A) : Prop := (forall s, RI (m1 s) (m2 s)) /\ Pr m2.
+
+Lemma RMI_refl {A} (m : M A) : Pr m -> RMI m m.
+Proof. intros H. split; [intros s; left; reflexivity|exact H]. Qed.
+
+Lemma RMI_bind {A B} (m1 m2 : M A) (k1 k2 : A -> M B) :
+  RMI m1 m2 -> (forall a, RMI (k1 a) (k2 a)) -> RMI (bind m1 k1) (bind m2 k2).
+Proof.
+  intros [Hm Pm] Hk. split; [|apply Pr_bind; [exact Pm|intros a; apply (proj2 (Hk a))]].
+  intros s. unfold bind. destruct (Hm s) as [E|[[d [s' [E Hd]]] HI]].
+  - rewrite E. destruct (m2 s) as [[a|f] s1]; [apply (proj1 (Hk a))|left; reflexivity].
+  - rewrite E in *. cbn [snd] in HI. right. split; [exists d, s'; split; [reflexivity|exact Hd]|]. cbn [snd].
+    destruct (m2 s) as [[a|f] s2]; cbn [snd] in *; [|exact HI]. eapply I_trans; [exact HI|apply (proj2 (Hk a))].
+Qed.
+
+Lemma RMI_ped_guard t : RMI (ped_guard true t) (ped_guard false t).
+Proof.
+  split; [|unfold ped_guard; apply Pr_ret]. intros s. right. split; [|apply I_refl].
+  unfold ped_guard, pedantic_error, failm. eexists. eexists. split; [reflexivity|split; reflexivity].
+Qed.
+
+Lemma RMI_catch_cls {A} (m1 m2 : M A) want (h1 h2 : fail -> M A) :
+  RMI m1 m2 -> (forall fl, RMI (h1 fl) (h2 fl)) -> want EOther = false -> RMI (catch_cls m1 want h1) (catch_cls m2 want h2).
+Proof.
+  intros [Hm Pm] Hh Hw. split; [|apply Pr_catch_cls; [exact Pm|intros f; apply (proj2 (Hh f))]].
+  intros s. unfold catch_cls, catch. destruct (Hm s) as [E|[[d [s' [E [Hk Hc]]]] HI]].
+  - rewrite E. destruct (m2 s) as [[a|f] s1]; [left; reflexivity|]. destruct f; try (left; reflexivity).
+    destruct (want (d_cls d)); [apply (proj1 (Hh (FErr d)))|left; reflexivity].
+  - rewrite E in *. cbn [snd] in HI. rewrite Hc, Hw. right. split; [exists d, s'; repeat split; assumption|]. cbn [snd].
+    destruct (m2 s) as [[a|f] s2]; cbn [snd] in *; [exact HI|]. destruct f; try exact HI.
+    destruct (want (d_cls d0)); [|exact HI]. eapply I_trans; [exact HI|apply (proj2 (Hh (FErr d0)))].
+Qed.
+
+Lemma RMI_run_body br1 br2 : RMI br1 br2 -> RMI (run_body br1) (run_body br2).
+Proof.
+  intros [Hm Pm]. split; [|apply Pr_run_body; exact Pm]. intros s. unfold run_body, catch, bind.
+  destruct (Hm s) as [E|[[d [s' [E Hd]]] HI]].
+  - rewrite E. left. reflexivity.
+  - rewrite E in *. cbn [snd] in HI. right. split; [exists d, s'; split; [reflexivity|exact Hd]|]. cbn [snd].
+    destruct (br2 s) as [[a|f] s2]; cbn [snd] in *; [exact HI|]. destruct f; exact HI.
+Qed.
+
+Lemma RMI_call_body d cc ab (m1 m2 : M unit) : RMI m1 m2 -> RMI (call_body d cc ab m1) (call_body d cc ab m2).
+Proof.
+  intros [Hm Pm]. split; [|apply Pr_call_body; exact Pm]. intros s. unfold call_body.
+  destruct (Hm s) as [E|[[dg [s' [E Hd]]] HI]].
+  - rewrite E. left. reflexivity.
+  - rewrite E in *. cbn [snd] in HI. right. split; [exists dg, (set_depth d s'); split; [reflexivity|exact Hd]|]. cbn [snd].
+    destruct (m2 s) as [[a|f] s2]; cbn [snd] in *; [apply I_depth_mono; exact HI|].
+    destruct f; try (apply I_depth_mono; exact HI).
+    + eapply I_trans; [apply I_depth_mono; exact HI|apply (@Pr_runtime_error_cls unit)].
+    + eapply I_trans; [apply I_depth_mono; exact HI|apply (@Pr_runtime_error_cls unit)].
+    + destruct ab; apply I_depth_mono; exact HI.
+Qed.
+
+Lemma RMI_mapM {A B} (f1 f2 : A -> M B) l : (forall x, RMI (f1 x) (f2 x)) -> RMI (mapM f1 l) (mapM f2 l).
+Proof.
+  intros H. induction l as [|x r IH]; cbn [mapM]; [apply RMI_refl; apply Pr_ret|].
+  apply RMI_bind; [apply H|]. intros y. apply RMI_bind; [exact IH|]. intros ys. apply RMI_refl. apply Pr_ret.
+Qed.
+Lemma RMI_iterM {A} (f1 f2 : A -> M unit) l : (forall x, RMI (f1 x) (f2 x)) -> RMI (iterM f1 l) (iterM f2 l).
+Proof.
+  intros H. induction l as [|x r IH]; cbn [iterM]; [apply RMI_refl; apply Pr_ret|]. apply RMI_bind; [apply H|]. intros _. exact IH.
+Qed.
+Lemma RMI_repeatM {A} k (m1 m2 : M A) : RMI m1 m2 -> RMI (repeatM k m1) (repeatM k m2).
+Proof.
+  intros H. induction k as [|k IH]; cbn [repeatM]; [apply RMI_refl; apply Pr_ret|].
+  apply RMI_bind; [exact H|]. intros x. apply RMI_bind; [exact IH|]. intros r. apply RMI_refl. apply Pr_ret.
+Qed.
+
+(* relational decomposition; [leaf] proves Pr of syntactically equal sides, [known] the recursive calls *)
+Ltac rmi_with known :=
+  repeat first
+    [ match goal with |- RMI ?x ?y => constr_eq x y; apply RMI_refl; solve [pr_with ltac:(first [heap_known | apply Pr_assign_val | apply Pr_abs_val | apply Pr_store_tree | apply Pr_builtin_args | apply Pr_tick])] end
+    | apply RMI_ped_guard
+    | known
+    | match goal with
+      | |- RMI (bind _ _) (bind _ _) => apply RMI_bind; [ | intros ? ]
+      | |- RMI (if ?c then _ else _) (if ?c then _ else _) => destruct c
+      | |- RMI (match ?x with _ => _ end) (match ?x with _ => _ end) => destruct x
+      | |- RMI (catch_cls _ _ _) (catch_cls _ _ _) => apply RMI_catch_cls; [ | intros ? | reflexivity ]
+      | |- RMI (mapM _ _) (mapM _ _) => apply RMI_mapM; intros ?
+      | |- RMI (iterM _ _) (iterM _ _) => apply RMI_iterM; intros ?
+      | |- RMI (repeatM _ _) (repeatM _ _) => apply RMI_repeatM
+      | |- RMI (call_body _ _ _ _) (call_body _ _ _ _) => apply RMI_call_body
+      | |- RMI (run_body _) (run_body _) => apply RMI_run_body
+      | |- _ /\ _ => split
+      | |- RMI (fst (match ?x with _ => _ end)) _ => destruct x; cbn [fst snd]
+      | |- RMI (snd (match ?x with _ => _ end)) _ => destruct x; cbn [fst snd]
+      end ].
+
+Lemma RMI_eval_bounds (ev1 ev2 : node -> M result) c bs : (forall e, RMI (ev1 e) (ev2 e)) ->
+  forall total, RMI (eval_bounds ev1 c bs total) (eval_bounds ev2 c bs total).
+Proof.
+  intros H. remember (List.length bs) as n eqn:Hn. revert bs Hn.
+  induction n as [n IH] using lt_wf_ind. intros bs Hn total.
+  destruct bs as [|lo [|hi rest]]; cbn [eval_bounds]; try (apply RMI_refl; apply Pr_ret).
+  rmi_with ltac:(first [apply H | (eapply IH; [|reflexivity]; subst n; cbn [List.length]; lia)]).
+Qed.
+Lemma RMI_eval_indices (ev1 ev2 : node -> M result) c es : (forall e, RMI (ev1 e) (ev2 e)) ->
+  forall ds, RMI (eval_indices ev1 c es ds) (eval_indices ev2 c es ds).
+Proof.
+  intros H. induction es as [|e er IH]; intros ds; cbn [eval_indices]; [apply RMI_refl; apply Pr_ret|].
+  destruct ds as [|d dr]; [apply RMI_refl; apply Pr_ret|]. rmi_with ltac:(first [apply H | apply IH]).
+Qed.
+
+Section RLoops.
+Variable lim : limits.
+Variables (t : token) (c : N).
+Lemma RMI_cond_bool ce1 ce2 : RMI ce1 ce2 -> RMI (cond_bool t c ce1) (cond_bool t c ce2).
+Proof. intros H. unfold cond_bool. rmi_with ltac:(exact H). Qed.
+Lemma RMI_while k ce1 ce2 br1 br2 : RMI ce1 ce2 -> RMI br1 br2 -> RMI (while_loop lim k t c ce1 br1) (while_loop lim k t c ce2 br2).
+Proof.
+  intros Hc Hb. induction k as [|k IH]; cbn [while_loop]; [apply RMI_refl; apply Pr_failm|].
+  rmi_with ltac:(first [apply RMI_cond_bool; exact Hc | exact Hb | exact IH]).
+Qed.
+Lemma RMI_repeat k ce1 ce2 br1 br2 : RMI ce1 ce2 -> RMI br1 br2 -> RMI (repeat_loop lim k t c ce1 br1) (repeat_loop lim k t c ce2 br2).
+Proof.
+  intros Hc Hb. induction k as [|k IH]; cbn [repeat_loop]; [apply RMI_refl; apply Pr_failm|].
+  rmi_with ltac:(first [apply RMI_cond_bool; exact Hc | exact Hb | exact IH]).
+Qed.
+Lemma RMI_for k it stepv stop br1 br2 : RMI br1 br2 -> RMI (for_loop lim k t c it stepv stop br1) (for_loop lim k t c it stepv stop br2).
+Proof.
+  intros Hb. induction k as [|k IH]; cbn [for_loop]; [apply RMI_refl; apply Pr_failm|].
+  rmi_with ltac:(first [exact Hb | exact IH]).
+Qed.
+Lemma RMI_if_chain_map (ev1 ev2 : node -> M result) (rb1 rb2 : list node -> M unit) comps :
+  (forall e, RMI (ev1 e) (ev2 e)) -> (forall b, RMI (rb1 b) (rb2 b)) ->
+  RMI (if_chain t c (map (if_comp ev1 rb1) comps)) (if_chain t c (map (if_comp ev2 rb2) comps)).
+Proof.
+  intros He Hb. induction comps as [|[[e|] b] r IH]; cbn [map if_comp if_chain fst snd]; [apply RMI_refl; apply Pr_ret| |].
+  - rmi_with ltac:(first [apply RMI_cond_bool; apply He | apply Hb | exact IH]).
+  - rmi_with ltac:(first [apply Hb]).
+Qed.
+Lemma RMI_case_chain_map {X} (f g : X -> M bool * M unit) l :
+  (forall x, RMI (fst (f x)) (fst (g x)) /\ RMI (snd (f x)) (snd (g x))) -> RMI (case_chain (map f l)) (case_chain (map g l)).
+Proof.
+  intros H. induction l as [|x r IH]; cbn [map case_chain]; [apply RMI_refl; apply Pr_ret|].
+  destruct (H x) as [Hm Hb]. destruct (f x) as [m1 b1], (g x) as [m2 b2]. cbn [fst snd] in *.
+  rmi_with ltac:(first [exact Hm | exact Hb | exact IH]).
+Qed.
+End RLoops.
+
+Section RBodies.
+Variables (repl : bool) (lim : limits) (a b : evs).
+Hypothesis Hfuel : ev_fuel a = ev_fuel b.
+Hypothesis He : forall n c, RMI (ev_eval a n c) (ev_eval b n c).
+Hypothesis Hr : forall r c, RMI (ev_resolve a r c) (ev_resolve b r c).
+Hypothesis Hce : forall v e c, RMI (ev_case_equals a v e c) (ev_case_equals b v e c).
+Hypothesis Hcr : forall v lo hi c, RMI (ev_case_range a v lo hi c) (ev_case_range b v lo hi c).
+Hypothesis Hb : forall bl c, RMI (ev_run_block a bl c) (ev_run_block b bl c).
+Hypothesis Hv : forall name ty cst owner, RMI (ev_new_var a name ty cst owner) (ev_new_var b name ty cst owner).
+Hypothesis Ha : forall name ty dims owner, RMI (ev_new_array a name ty dims owner) (ev_new_array b name ty dims owner).
+Hypothesis Hba : forall t params args vals c fc, RMI (ev_bind_args a t params args vals c fc) (ev_bind_args b t params args vals c fc).
+Hypothesis Hp : forall t name args c, RMI (ev_call_procedure a t name args c) (ev_call_procedure b t name args c).
+Hypothesis Hf : forall t args c, RMI (ev_call_function a t args c) (ev_call_function b t args c).
+
+Ltac rev_known :=
+  first [ apply He | apply Hr | apply Hce | apply Hcr | apply Hb | apply Hv | apply Ha | apply Hba | apply Hp | apply Hf
+        | match goal with
+          | |- RMI (eval_bounds _ _ _ _) (eval_bounds _ _ _ _) => apply RMI_eval_bounds; intros ?
+          | |- RMI (eval_indices _ _ _ _) (eval_indices _ _ _ _) => apply RMI_eval_indices; intros ?
+          | |- RMI (if_chain _ _ (map (if_comp _ _) _)) (if_chain _ _ (map (if_comp _ _) _)) => apply RMI_if_chain_map; intros ?
+          | |- RMI (case_chain (map _ _)) (case_chain (map _ _)) => apply RMI_case_chain_map; intros ?
+          | |- RMI (while_loop _ _ _ _ _ _) (while_loop _ _ _ _ _ _) => apply RMI_while
+          | |- RMI (repeat_loop _ _ _ _ _ _) (repeat_loop _ _ _ _ _ _) => apply RMI_repeat
+          | |- RMI (for_loop _ _ _ _ _ _ _ _) (for_loop _ _ _ _ _ _ _ _) => apply RMI_for
+          end ].
+
+Lemma R_eval_body n c : RMI (eval_body true lim a n c) (eval_body false lim b n c).
+Proof. destruct n; unfold eval_body; rewrite <- ?Hfuel; rmi_with rev_known. Qed.
+Lemma R_resolve_body r c : RMI (resolve_body a r c) (resolve_body b r c).
+Proof. destruct r; unfold resolve_body; rmi_with rev_known. Qed.
+Lemma R_case_equals_body v e c : RMI (case_equals_body a v e c) (case_equals_body b v e c).
+Proof. unfold case_equals_body; rmi_with rev_known. Qed.
+Lemma R_case_range_body v lo hi c : RMI (case_range_body a v lo hi c) (case_range_body b v lo hi c).
+Proof. unfold case_range_body; rmi_with rev_known. Qed.
+Lemma R_run_block_body bl c : RMI (run_block_body repl lim a bl c) (run_block_body repl lim b bl c).
+Proof. unfold run_block_body; rmi_with rev_known. Qed.
+Lemma R_new_var_body name ty cst owner : RMI (new_var_body a name ty cst owner) (new_var_body b name ty cst owner).
+Proof. unfold new_var_body; rmi_with rev_known. Qed.
+Lemma R_new_array_body name ty dims owner : RMI (new_array_body lim a name ty dims owner) (new_array_body lim b name ty dims owner).
+Proof. unfold new_array_body; rmi_with rev_known. Qed.
+Lemma R_bind_args_body t params args vals c fc : RMI (bind_args_body a t params args vals c fc) (bind_args_body b t params args vals c fc).
+Proof. unfold bind_args_body; rmi_with rev_known. Qed.
+Lemma R_call_procedure_body t name args c : RMI (call_procedure_body lim a t name args c) (call_procedure_body lim b t name args c).
+Proof. unfold call_procedure_body; rmi_with rev_known. Qed.
+Lemma R_call_function_body t args c : RMI (call_function_body lim a t args c) (call_function_body lim b t args c).
+Proof. unfold call_function_body; rmi_with rev_known. Qed.
+End RBodies.
+
+Definition evs_RMI (a b : evs) : Prop :=
+  ev_fuel a = ev_fuel b /\
+  (forall n c, RMI (ev_eval a n c) (ev_eval b n c)) /\ (forall r c, RMI (ev_resolve a r c) (ev_resolve b r c)) /\
+  (forall v e c, RMI (ev_case_equals a v e c) (ev_case_equals b v e c)) /\
+  (forall v lo hi c, RMI (ev_case_range a v lo hi c) (ev_case_range b v lo hi c)) /\
+  (forall bl c, RMI (ev_run_block a bl c) (ev_run_block b bl c)) /\
+  (forall name ty cst owner, RMI (ev_new_var a name ty cst owner) (ev_new_var b name ty cst owner)) /\
+  (forall name ty dims owner, RMI (ev_new_array a name ty dims owner) (ev_new_array b name ty dims owner)) /\
+  (forall t params args vals c fc, RMI (ev_bind_args a t params args vals c fc) (ev_bind_args b t params args vals c fc)) /\
+  (forall t name args c, RMI (ev_call_procedure a t name args c) (ev_call_procedure b t name args c)) /\
+  (forall t args c, RMI (ev_call_function a t args c) (ev_call_function b t args c)).
+
+Lemma evs_at_RMI repl lim fuel : evs_RMI (evs_at true repl lim fuel) (evs_at false repl lim fuel).
+Proof.
+  induction fuel as [|f IH]; cbn [evs_at].
+  - unfold evs_RMI, evs_zero. cbn. repeat split; intros; try (left; reflexivity); apply Pr_failm.
+  - destruct IH as [H0 [H1 [H2 [H3 [H4 [H5 [H6 [H7 [H8 [H9 H10]]]]]]]]]]. unfold evs_RMI, evs_step. cbn.
+    split; [rewrite H0; reflexivity|].
+    split; [intros; apply R_eval_body; assumption|].
+    split; [intros; apply R_resolve_body; assumption|].
+    split; [intros; apply R_case_equals_body; assumption|].
+    split; [intros; apply R_case_range_body; assumption|].
+    split; [intros; apply R_run_block_body; assumption|].
+    split; [intros; apply R_new_var_body; assumption|].
+    split; [intros; apply R_new_array_body; assumption|].
+    split; [intros; apply R_bind_args_body; assumption|].
+    split; [intros; apply R_call_procedure_body; assumption|].
+    intros; apply R_call_function_body; assumption.
+Qed.
+
+(* with --pedantic the block either does exactly what it does without the option, or stops with a pedantic
+   Error in a state from which the final state of the other run is I-reachable *)
+Theorem run_block_ped_frame repl lim fuel bl c s :
+  RI (run_block true repl lim fuel bl c s) (run_block false repl lim fuel bl c s).
+Proof. unfold run_block. destruct (evs_at_RMI repl lim fuel) as [_ [_ [_ [_ [_ [H _]]]]]]. apply (proj1 (H bl c)). Qed.
+End PedRel.
 End Frame.
